@@ -307,7 +307,9 @@ def _linear(b: Builder, h: str, din: int, dout: int, forms) -> str:
 # ------------------------------------------------------------------------------------------ emitter
 def emit_source(prog: Dict[str, Any]) -> str:
     L = ["import torch", "import torch.nn as nn", "import torch.nn.functional as F", "import unit_scaling as uu",
-         "import unit_scaling.functional as U", "", "", "class Gen(nn.Module):", "    def __init__(self):", "        super().__init__()"]
+         "import unit_scaling.functional as U", "", "",
+         "def my_act(x):", "    # a user's own implementation of an activation (cf. the `replace=` example in the unit_scale docs)",
+         "    return x * torch.sigmoid(1.702 * x)", "", "", "class Gen(nn.Module):", "    def __init__(self):", "        super().__init__()"]
     for m in prog["mods"]:
         args = ", ".join([repr(a) for a in m["args"]] + [f"{k}={v!r}" for k, v in m["kw"].items()])
         L.append(f"        self.{m['name']} = {m['type']}({args})")
@@ -345,6 +347,8 @@ def emit_op(o: Dict[str, Any]) -> str:
         return f"{out} = torch.matmul({a[0]}, {a[1]})"
     if op == "gelu":
         return f"{out} = F.gelu({a[0]}" + (f", approximate={kw['approximate']!r})" if "approximate" in kw else ")")
+    if op == "custom_act":
+        return f"{out} = my_act({a[0]})"
     if op == "silu":
         return f"{out} = F.silu({a[0]})"
     if op == "relu":
@@ -588,7 +592,10 @@ def interpret(prog: Dict[str, Any], params: Dict[str, Any], inputs: List[Any], s
         if recipe and out not in A["has_residual_successor"]:
             cons = {"constraint": None}
         if replace and op in replace:
-            env[out] = replace[op](*a)
+            env[out] = replace[op](*a, **cons)
+            continue
+        if op == "custom_act":
+            env[out] = a[0] * torch.sigmoid(1.702 * a[0])
             continue
         if op == "linear_f":
             b_ = a[2] if len(a) > 2 else None
